@@ -248,7 +248,7 @@ class TraceProp(Prop):
 
     def signature(self, case, obs, v):
         # SQLAlchemy's row switch (delete + insert of one key in ONE flush, delivered as an UPDATE whose
-        # unchanged-flag columns do not hold the stored values) is the open finding F-ROWSWITCH: it shows
+        # unchanged-flag columns do not hold the stored values) was the finding F-ROWSWITCH (fixed; the signature is kept for the pinned case): it shows
         # either in the program or as a violation of the W2 contract on an `upd` event of the trace
         if v['clause'] == 'C01.newestIsLive' and (_row_switch_in(case.get('program') or []) or
                                                   'wf_violated:upd' in (obs.get('_tags') or [])):
@@ -517,8 +517,6 @@ class C11(TraceProp):
                 for n in range(1, 7):
                     for seq in itertools.product(range(len(alphabet)), repeat=n):
                         prog = [alphabet[i] for i in seq]
-                        if _row_switch_in(prog):
-                            continue
                         yield {'spec': spec, 'autoflush': False, 'program': prog + [['commit']], 'exhaustive': True}
 
 
